@@ -26,7 +26,7 @@ one() {
   if ! git -C $WT apply $patch 2>/dev/null; then
     echo "$id: patch no longer applies to the current tree"
   else
-    out=$(VERIF_REPO=$WT VERIF_SCRATCH_OUT=$WT.out ./bin/gocv check $prop quick 2>&1); ex=$?
+    out=$(VERIF_REPO=$WT VERIF_SCRATCH_OUT=$WT.out ${GOCV:-./bin/gocv} check $prop quick 2>&1); ex=$?
     viol=$(echo "$out" | grep -c '^VIOLATION')
     python3 - "/verif/seeded/$id/meta.json" "$prop" "$ex" "$viol" "$(echo "$out" | grep '^VIOLATION' | head -5)" <<'PY'
 import json,sys,re
@@ -52,7 +52,7 @@ rm -f /var/tmp/selftest.$$.log
 for f in props/*.json; do
   prop=$(basename $f .json)
   if [ -n "$want" ] && ! echo " $want " | grep -q " $prop "; then continue; fi
-  out=$(./check $prop quick 2>&1); ex=$?
+  out=$(${GOCV:-./bin/gocv} check $prop quick 2>&1); ex=$?
   if [ $ex -ne 0 ]; then echo "$prop: unchanged tree exit $ex"; echo "$out" | tail -3; rc=1; else echo "$prop: unchanged tree ok"; fi
 done
 exit $rc
